@@ -505,3 +505,554 @@ Proof.
     assert ((lo <=? sl) && (sl <=? hi) = true) by lia. rewrite H0. reflexivity.
   - simpl. discriminate.
 Qed.
+
+(* ================================================================== session-level invariant (Repaired) *)
+Definition kinds_ok (r : reg) : Prop :=
+  forall p, In p (pools r) -> p_fam p <> FD -> forall sl, snd (item_of (p_geom p) sl) = 0.
+
+Lemma same_shape_in r r' p' : same_shape r r' -> In p' (pools r') -> exists p, In p (pools r) /\ psig p = psig p'.
+Proof.
+  intros Hs Hin. apply (in_map psig) in Hin. rewrite Hs in Hin. apply in_map_iff in Hin.
+  destruct Hin as (p & E & Hp). exists p; auto.
+Qed.
+Lemma same_shape_sym r r' : same_shape r r' -> same_shape r' r.
+Proof. unfold same_shape; congruence. Qed.
+
+Lemma kinds_ok_shape r r' : same_shape r r' -> kinds_ok r -> kinds_ok r'.
+Proof.
+  intros Hs Hk p' Hin Hf sl. destruct (same_shape_in _ _ _ Hs Hin) as (p & Hp & E).
+  assert (Eg : p_geom p' = p_geom p) by (unfold psig in E; congruence).
+  assert (Ef : p_fam p' = p_fam p) by (unfold psig in E; congruence).
+  rewrite Eg. apply Hk; auto. congruence.
+Qed.
+Lemma pools_disjoint_shape r r' : same_shape r r' -> pools_disjoint r -> pools_disjoint r'.
+Proof.
+  intros Hs Hd p' q' x Hp' Hq' Hf Hc1 Hc2.
+  destruct (same_shape_in _ _ _ Hs Hp') as (p & Hp & E1). destruct (same_shape_in _ _ _ Hs Hq') as (q & Hq & E2).
+  assert (A3 : p_geom p = p_geom p') by (unfold psig in E1; congruence).
+  assert (B3 : p_geom q = p_geom q') by (unfold psig in E2; congruence).
+  assert (A1 : p_fam p = p_fam p') by (unfold psig in E1; congruence).
+  assert (B1 : p_fam q = p_fam q') by (unfold psig in E2; congruence).
+  assert (pool_id p = pool_id q).
+  { apply Hd with (x := x); auto; try congruence; unfold contains in *; [rewrite A3|rewrite B3]; assumption. }
+  apply psig_id in E1. apply psig_id in E2. congruence.
+Qed.
+
+Section Invariant.
+(* K: any registry predicate that depends on the pools' signatures only and implies kinds_ok
+   (instantiated with kinds_ok, and with kinds_ok /\ pools_disjoint) *)
+Variable K : reg -> Prop.
+Hypothesis K_shape : forall r r', same_shape r r' -> K r -> K r'.
+Hypothesis K_kinds : forall r, K r -> kinds_ok r.
+
+Definition rinv (r : reg) : Prop := reg_ok r /\ K r.
+Lemma rinv_step P r r' : rinv r -> step_ok P r r' -> rinv r' /\ pres P r r'.
+Proof.
+  intros [Hok Hk] H. destruct (H Hok) as (A & B & C). split; [split|]; auto. eapply K_shape; eauto.
+Qed.
+
+(* ---- allocation answers of address families carry prefix length 0 *)
+Lemma alloc_in_kind r p s r' x k :
+  kinds_ok r -> In p (pools r) -> p_fam p <> FD -> In (r', Some (x, k)) (alloc_in r p s) -> snd x = 0.
+Proof.
+  intros Hk Hin Hf Hc. unfold alloc_in in Hc. apply in_map_iff in Hc. destruct Hc as (sl & E & _).
+  inversion E; subst. apply Hk; auto.
+Qed.
+Lemma alloc_walk_kind f prof vrf s r r' x k :
+  kinds_ok r -> f <> FD -> In (r', Some (x, k)) (alloc_walk f prof vrf s r) -> snd x = 0.
+Proof.
+  intros Hk Hf. unfold alloc_walk. destruct (find _ (fam_pools f r)) as [p|] eqn:E.
+  - apply find_in in E. destruct E as [E _]. apply fam_pools_in in E. destruct E as [Hin Hfp].
+    apply alloc_in_kind; auto. congruence.
+  - intros [H|[]]. inversion H.
+Qed.
+Lemma alloc_from_profile_kind f prof ov vrf s r r' x k :
+  kinds_ok r -> f <> FD -> In (r', Some (x, k)) (alloc_from_profile f prof ov vrf s r) -> snd x = 0.
+Proof.
+  intros Hk Hf. unfold alloc_from_profile.
+  destruct ov as [kk|]; [|apply alloc_walk_kind; auto].
+  destruct (find _ (fam_pools f r)) as [p|] eqn:E; [|apply alloc_walk_kind; auto].
+  destruct (isnil (p_free p)); [apply alloc_walk_kind; auto|].
+  apply find_in in E. destruct E as [E _]. apply fam_pools_in in E. destruct E as [Hin Hfp].
+  apply alloc_in_kind; auto. congruence.
+Qed.
+
+Lemma acquire_ok f prof ov vrf sid cur r r1 a pk ok :
+  rinv r -> (f <> FD -> forall i, cur = Some i -> snd i = 0) ->
+  In (r1, a, pk, ok) (acquire Repaired f prof ov vrf sid cur r) ->
+  step_ok anyone r r1 /\ (ok = true -> forall i, a = Some i -> owns r1 f vrf i sid) /\
+  (f <> FD -> forall i, a = Some i -> snd i = 0).
+Proof.
+  intros [Hok Hk] Hcur. apply K_kinds in Hk. unfold acquire. destruct cur as [x|].
+  - intros Hc. apply in_map_iff in Hc. destruct Hc as ([r' ok'] & E & Hc). inversion E; subst; clear E.
+    destruct (reserve_cont_ok _ _ _ _ _ _ _ Hok Hc) as [A B]. split; [exact A|split].
+    + intros Ho i Hi. assert (i = x) by congruence. subst i. apply B. exact Ho.
+    + intros Hf i Hi. assert (i = x) by congruence. subst i. apply Hcur; auto.
+  - destruct prof as [pf|].
+    + intros Hc. apply in_map_iff in Hc. destruct Hc as ([r' res] & E & Hc).
+      destruct (alloc_from_profile_ok _ _ _ _ _ _ _ _ Hok Hc) as [A B].
+      destruct res as [[x k]|]; inversion E; subst; clear E.
+      * split; [exact A|split].
+        -- intros _ i Hi. inversion Hi; subst. destruct B as [B|(x' & k' & B & Ho)]; [discriminate|].
+           inversion B; subst. apply Ho.
+        -- intros Hf i Hi. inversion Hi; subst. eapply alloc_from_profile_kind; eauto.
+      * split; [exact A|split]; intros; discriminate.
+    + intros [E|[]]. inversion E; subst. split; [apply step_ok_refl|split]; intros; discriminate.
+Qed.
+
+(* ---- what a session claims, and the state invariant *)
+Definition oo (r : reg) (v i : N) (f : fam) (x : option item) : Prop :=
+  forall y, x = Some y -> owns r f v y i.
+Definition sess_ok (r : reg) (s : sess) : Prop :=
+  s_live s = true ->
+  (s_ppp s = true -> oo r (s_vrf s) (s_id s) F4 (oitem (s_a4 s)) /\ oo r (s_vrf s) (s_id s) F6 (oitem (s_a6 s)) /\
+                     oo r (s_vrf s) (s_id s) FD (s_ad s)) /\
+  oo r (s_vrf s) (s_id s) F4 (oitem (s_told s)) /\ oo r (s_vrf s) (s_id s) F6 (oitem (s_b6 s)) /\
+  oo r (s_vrf s) (s_id s) FD (s_bd s).
+(* PPPoE: the recorded address is the one told (or nothing), and the told address is a usable one *)
+Definition told_ok (s : sess) : Prop :=
+  s_ppp s = true -> s_told s <> Some 0 /\ (s_a4 s = None \/ s_a4 s = s_told s).
+
+Definition inv (st : state) : Prop :=
+  rinv (st_reg st) /\ NoDup (map s_id (st_sess st)) /\
+  Forall (sess_ok (st_reg st)) (st_sess st) /\ Forall told_ok (st_sess st).
+
+Lemma oo_pres (P : N -> Prop) r r' v i f x : pres P r r' -> P i -> oo r v i f x -> oo r' v i f x.
+Proof. intros Hp Pi Ho y Hy. apply Hp; auto. Qed.
+Lemma oo_none r v i f : oo r v i f None.
+Proof. intros y H; discriminate. Qed.
+
+Lemma sess_ok_pres (P : N -> Prop) r r' s : pres P r r' -> P (s_id s) -> sess_ok r s -> sess_ok r' s.
+Proof.
+  intros Hp Pi Hs Hl. destruct (Hs Hl) as (A & B & C & D).
+  split; [|split; [|split]]; try (eapply oo_pres; eauto).
+  intros Hppp. destruct (A Hppp) as (A1 & A2 & A3). repeat split; eapply oo_pres; eauto.
+Qed.
+
+Lemma put_sess_ids s' l : map s_id (put_sess s' l) = map s_id l.
+Proof.
+  unfold put_sess. rewrite map_map. apply map_ext. intros a.
+  destruct (s_id a =? s_id s') eqn:E; auto. apply N.eqb_eq in E. auto.
+Qed.
+
+Lemma inv_update st s s' r' pr' :
+  inv st -> In s (st_sess st) -> s_id s' = s_id s ->
+  step_ok (other_than (s_id s)) (st_reg st) r' ->
+  (rinv r' -> sess_ok r' s') -> told_ok s' ->
+  inv (mkState r' (put_sess s' (st_sess st)) pr').
+Proof.
+  intros (Hr & Hnd & Hs & Ht) Hin Hid Hstep Hs' Ht'.
+  destruct (rinv_step _ _ _ Hr Hstep) as [Hr' Hp].
+  unfold inv; cbn [st_reg st_sess]. split; [exact Hr'|split; [|split]].
+  - rewrite put_sess_ids. exact Hnd.
+  - apply Forall_forall. intros t Hti. unfold put_sess in Hti. apply in_map_iff in Hti.
+    destruct Hti as (t0 & E & Ht0). destruct (s_id t0 =? s_id s') eqn:Eid.
+    + subst t. apply Hs'; exact Hr'.
+    + subst t. eapply sess_ok_pres; [exact Hp| |eapply Forall_forall in Hs; eauto].
+      unfold other_than. intros H. rewrite H, <- Hid, N.eqb_refl in Eid. discriminate.
+  - apply Forall_forall. intros t Hti. unfold put_sess in Hti. apply in_map_iff in Hti.
+    destruct Hti as (t0 & E & Ht0). destruct (s_id t0 =? s_id s'); subst t; auto.
+    eapply Forall_forall in Ht; eauto.
+Qed.
+
+Lemma anyone_other s r r' : step_ok anyone r r' -> step_ok (other_than s) r r'.
+Proof. apply step_ok_weaken. intros; exact I. Qed.
+
+Lemma find_sess_in sid st s : find_sess sid st = Some s -> In s (st_sess st) /\ s_id s = sid.
+Proof. unfold find_sess. intros H. apply find_in in H. destruct H as [H1 H2]. apply N.eqb_eq in H2. auto. Qed.
+
+Lemma inv_sess st s : inv st -> In s (st_sess st) -> sess_ok (st_reg st) s /\ told_ok s.
+Proof. intros (_ & _ & Hs & Ht) Hin. split; eapply Forall_forall; eauto. Qed.
+
+Lemma oitem_some a i : oitem a = Some i -> exists x, a = Some x /\ i = (x, 0).
+Proof. destruct a; simpl; intros H; inversion H; eauto. Qed.
+Lemma oitem_oaddr (a : option item) : (forall i, a = Some i -> snd i = 0) -> oitem (oaddr a) = a.
+Proof. destruct a as [[x l]|]; simpl; auto. intros H. specialize (H _ eq_refl). simpl in H. subst. reflexivity. Qed.
+
+(* ---------------------------------------------------------------- PI *)
+Lemma pi_upd_inv st s X :
+  inv st -> In s (st_sess st) -> s_ppp s = true ->
+  (X = s_a4 s \/ X = s_told s \/ X = None) ->
+  inv (mkState (st_reg st) (put_sess (pi_upd s X) (st_sess st)) (st_prov st)).
+Proof.
+  intros Hinv Hin Hppp HX. destruct (inv_sess _ _ Hinv Hin) as [Hs Ht].
+  apply inv_update with (s := s); [exact Hinv|exact Hin|reflexivity|apply step_ok_refl| |].
+  - intros _ Hl. cbn in Hl. destruct (Hs Hl) as (A & B & C & D). destruct (A Hppp) as (A1 & A2 & A3).
+    cbn. split; [intros _; split; [|split]; auto|split; [auto|split; apply oo_none]].
+    destruct HX as [->|[->| ->]]; auto. apply oo_none.
+  - intros _. cbn. destruct (Ht Hppp) as [T1 T2]. split; auto.
+    destruct HX as [->|[->| ->]]; auto.
+Qed.
+
+Lemma step_pi_inv st s a st' o :
+  inv st -> In s (st_sess st) -> s_ppp s = true -> In (st', o) (step_pi st s a) -> inv st'.
+Proof.
+  intros Hinv Hin Hppp. destruct (inv_sess _ _ Hinv Hin) as [_ Ht]. destruct (Ht Hppp) as [T1 _].
+  unfold step_pi, pi_res. destruct (s_told s) as [t|] eqn:Et.
+  - destruct a as [x|].
+    + destruct (negb (t =? 0) && negb (x =? t)) eqn:E1.
+      * intros [E|[]]; inversion E; subst. apply pi_upd_inv; auto.
+      * destruct (x =? 0) eqn:E2.
+        -- intros [E|[]]; inversion E; subst. apply pi_upd_inv; auto.
+        -- intros [E|[]]; inversion E; subst. apply pi_upd_inv; auto. right; left.
+           destruct (N.eqb_spec t 0) as [->|Hn]; [exfalso; apply T1; reflexivity|].
+           destruct (N.eqb_spec x t) as [->|Hn2]; [symmetry; exact Et|]. simpl in E1. discriminate.
+    + intros [E|[]]; inversion E; subst. apply pi_upd_inv; auto.
+  - intros [E|[]]; inversion E; subst. apply pi_upd_inv; auto.
+Qed.
+
+(* ---------------------------------------------------------------- releases: PT, IR, IT *)
+Lemma rel_addr_ok f (a : option N) (pk : option N) vrf sid r r1 :
+  In r1 (match a with
+         | Some a => match pk with
+                     | Some k => [release_pool Repaired f k (addr_item a) sid r]
+                     | None => release_ip Repaired f (addr_item a) vrf sid r
+                     end
+         | None => [r]
+         end) -> step_ok (other_than sid) r r1.
+Proof.
+  destruct a as [a|]; [|intros [<-|[]]; apply step_ok_refl].
+  destruct pk as [k|]; [intros [<-|[]]; apply release_pool_ok|apply release_ip_ok].
+Qed.
+Lemma rel_item_ok f (x : option item) vrf sid r r1 :
+  In r1 (match x with Some x => release_ip Repaired f x vrf sid r | None => [r] end) ->
+  step_ok (other_than sid) r r1.
+Proof. destruct x; [apply release_ip_ok|intros [<-|[]]; apply step_ok_refl]. Qed.
+
+Lemma dead_inv st s r' pr' :
+  inv st -> In s (st_sess st) -> step_ok (other_than (s_id s)) (st_reg st) r' ->
+  inv (mkState r' (put_sess (set_live s false) (st_sess st)) pr').
+Proof.
+  intros Hinv Hin Hstep. destruct (inv_sess _ _ Hinv Hin) as [_ Ht].
+  apply inv_update with (s := s); [exact Hinv|exact Hin|reflexivity|exact Hstep| |].
+  - intros _ Hl. cbn in Hl. discriminate.
+  - exact Ht.
+Qed.
+
+Lemma step_pt_inv st s st' o :
+  inv st -> In s (st_sess st) -> In (st', o) (step_pt Repaired st s) -> inv st'.
+Proof.
+  intros Hinv Hin. unfold step_pt, bindl. intros H.
+  apply in_flat_map in H. destruct H as (r1 & H1 & H).
+  apply in_flat_map in H. destruct H as (r2 & H2 & H).
+  apply in_map_iff in H. destruct H as (r3 & E & H3). inversion E; subst; clear E.
+  apply dead_inv; auto.
+  eapply step_ok_trans; [eapply rel_addr_ok; exact H1|].
+  eapply step_ok_trans; [eapply rel_addr_ok; exact H2|].
+  eapply rel_item_ok; exact H3.
+Qed.
+
+Lemma step_rel_inv st s ir st' o :
+  inv st -> In s (st_sess st) -> In (st', o) (step_rel Repaired st s ir) -> inv st'.
+Proof.
+  intros Hinv Hin. unfold step_rel, bindl. intros H.
+  apply in_flat_map in H. destruct H as (r1 & H1 & H).
+  destruct (if ir then prov_release Repaired (st_prov st) r1 (s_mac s) (s_id s) else (st_prov st, r1))
+    as [pr' r2] eqn:Ep.
+  apply in_flat_map in H. destruct H as (r3 & H3 & H).
+  apply in_map_iff in H. destruct H as (r4 & E & H4). inversion E; subst; clear E.
+  apply dead_inv; auto.
+  eapply step_ok_trans; [eapply rel_item_ok with (x := oitem (s_b4 s)) | ].
+  { destruct (s_b4 s); exact H1. }
+  eapply step_ok_trans with (r2 := r2).
+  { destruct ir; [eapply prov_release_ok; exact Ep|inversion Ep; subst; apply step_ok_refl]. }
+  eapply step_ok_trans; [eapply rel_item_ok with (x := oitem (s_b6 s)) | eapply rel_item_ok; exact H4].
+  destruct (s_b6 s); exact H3.
+Qed.
+
+(* ---------------------------------------------------------------- IPoE: ID / IQ / IS *)
+Lemma ipoe_sess_ok r s' :
+  s_ppp s' = false ->
+  oo r (s_vrf s') (s_id s') F4 (oitem (s_told s')) -> oo r (s_vrf s') (s_id s') F6 (oitem (s_b6 s')) ->
+  oo r (s_vrf s') (s_id s') FD (s_bd s') -> sess_ok r s'.
+Proof. intros Hp A B C _. split; [intros H; congruence|auto]. Qed.
+
+Lemma ipoe_told_ok s' : s_ppp s' = false -> told_ok s'.
+Proof. intros H H'. congruence. Qed.
+
+(* facts about the (possibly fresh) allocation context of an IPoE session *)
+Definition ctx_of (st : state) (s s0 : sess) : Prop :=
+  In s (st_sess st) /\ s_id s0 = s_id s /\ s_ppp s0 = false /\ s_live s0 = true /\ sess_ok (st_reg st) s0.
+
+Lemma id_ctx_of st s vrf s4 o4 :
+  inv st -> In s (st_sess st) -> s_ppp s = false -> s_live s = true -> ctx_of st s (id_ctx s vrf s4 o4).
+Proof.
+  intros Hinv Hin Hp Hl. unfold id_ctx, ctx_of. destruct (s_started s).
+  - split; [exact Hin|split; [reflexivity|split; [exact Hp|split; [exact Hl|]]]].
+    destruct (inv_sess _ _ Hinv Hin) as [X _]; exact X.
+  - split; [exact Hin|split; [reflexivity|split; [reflexivity|split; [reflexivity|]]]].
+    apply ipoe_sess_ok; cbn; auto using oo_none.
+Qed.
+Lemma is_ctx_of st s vrf s6 spd o6 od :
+  inv st -> In s (st_sess st) -> s_ppp s = false -> s_live s = true -> ctx_of st s (is_ctx s vrf s6 spd o6 od).
+Proof.
+  intros Hinv Hin Hp Hl. unfold is_ctx, ctx_of. destruct (s_started s).
+  - split; [exact Hin|split; [reflexivity|split; [exact Hp|split; [exact Hl|]]]].
+    destruct (inv_sess _ _ Hinv Hin) as [X _]; exact X.
+  - split; [exact Hin|split; [reflexivity|split; [reflexivity|split; [reflexivity|]]]].
+    apply ipoe_sess_ok; cbn; auto using oo_none.
+Qed.
+
+Lemma oitem_kind (a : option N) i : oitem a = Some i -> snd i = 0.
+Proof. intros H. apply oitem_some in H. destruct H as (x & _ & ->). reflexivity. Qed.
+
+Lemma step_id_core_inv st s s0 isreq st' o :
+  inv st -> ctx_of st s s0 -> In (st', o) (step_id_core Repaired st s0 isreq) -> inv st'.
+Proof.
+  intros Hinv (Hin & Hid & Hp & Hl & Hs0). pose proof Hinv as (Hr & _).
+  destruct (Hs0 Hl) as (_ & OT & O6 & OD).
+  unfold step_id_core. destruct (s_prof4 s0) as [pf|] eqn:Epf.
+  2:{ intros [E|[]]; inversion E; subst.
+      apply inv_update with (s := s); [exact Hinv|exact Hin|exact Hid|apply step_ok_refl|intros _; exact Hs0|].
+      apply ipoe_told_ok; exact Hp. }
+  unfold bindl. intros H. apply in_flat_map in H. destruct H as ([[[r1 a4] pk] ok] & Hc & H).
+  destruct (acquire_ok F4 _ _ _ _ _ _ _ _ _ _ Hr (fun _ i Hi => oitem_kind _ _ Hi) Hc) as (A & B & C).
+  destruct (rinv_step _ _ _ Hr A) as [Hr1 Hp1].
+  assert (Hcarry : forall f x, oo (st_reg st) (s_vrf s0) (s_id s0) f x -> oo r1 (s_vrf s0) (s_id s0) f x).
+  { intros f x. apply oo_pres with (P := anyone); [exact Hp1|exact I]. }
+  assert (Hs1 : forall a4' b4', sess_ok r1
+            (mkSess (s_id s0) false (s_prof4 s0) (s_prof6 s0) (s_mac s0) true true (s_vrf s0) (s_ov4 s0)
+                    (s_ov6 s0) (s_ovd s0) a4' (s_a6 s0) (s_ad s0) None None (s_told s0) false
+                    b4' (s_b6 s0) (s_bd s0))).
+  { intros a4' b4'. apply ipoe_sess_ok; cbn; auto. }
+  cbv zeta in H. revert H.
+  destruct (if ok then oaddr a4 else None) as [x|] eqn:Ex.
+  - destruct (prov_reserve Repaired (st_prov st) r1 x (s_mac s0) (s_id s0) pk) as [[pr' r2] okp] eqn:Epr.
+    pose proof (prov_reserve_reg _ _ _ _ _ _ _ _ _ Epr) as ->.
+    destruct okp; intros [E|[]]; inversion E; subst; clear E.
+    + apply inv_update with (s := s);
+        [exact Hinv|exact Hin|exact Hid|apply anyone_other; exact A| |apply ipoe_told_ok; reflexivity].
+      intros _. apply ipoe_sess_ok; cbn; auto.
+      destruct ok; [|discriminate]. destruct a4 as [i|]; [|discriminate]. cbn in Ex. inversion Ex; subst.
+      intros y Hy. inversion Hy; subst. pose proof (C ltac:(discriminate) i eq_refl) as Hk.
+      destruct i as [ia il]; cbn in *; subst il. apply B; auto.
+    + apply inv_update with (s := s);
+        [exact Hinv|exact Hin|exact Hid|apply anyone_other; exact A|intros _; apply ipoe_sess_ok; cbn; auto|apply ipoe_told_ok; reflexivity].
+  - intros [E|[]]; inversion E; subst; clear E.
+    apply inv_update with (s := s);
+      [exact Hinv|exact Hin|exact Hid|apply anyone_other; exact A|intros _; apply ipoe_sess_ok; cbn; auto|apply ipoe_told_ok; reflexivity].
+Qed.
+
+Lemma oo_oaddr r v i f (a : option item) :
+  (forall j, a = Some j -> snd j = 0) -> (forall j, a = Some j -> owns r f v j i) -> oo r v i f (oitem (oaddr a)).
+Proof. intros Hk0 O. rewrite oitem_oaddr; auto. Qed.
+
+Lemma not_fd_fd (P : Prop) : FD <> FD -> P.
+Proof. intros H; exfalso; apply H; reflexivity. Qed.
+
+Lemma step_is_core_inv st s s0 st' o :
+  inv st -> ctx_of st s s0 -> In (st', o) (step_is_core Repaired st s0) -> inv st'.
+Proof.
+  intros Hinv (Hin & Hid & Hp & Hl & Hs0). pose proof Hinv as (Hr & _).
+  destruct (Hs0 Hl) as (_ & OT & O6 & OD).
+  unfold step_is_core. destruct (s_prof6 s0) as [pf|] eqn:Epf.
+  2:{ intros [E|[]]; inversion E; subst.
+      apply inv_update with (s := s); [exact Hinv|exact Hin|exact Hid|apply step_ok_refl|intros _; exact Hs0|].
+      apply ipoe_told_ok; exact Hp. }
+  unfold bindl. intros H. apply in_flat_map in H. destruct H as ([[[r1 a6] pk6] ok6] & Hc & H).
+  destruct (acquire_ok F6 _ _ _ _ _ _ _ _ _ _ Hr (fun _ i Hi => oitem_kind _ _ Hi) Hc) as (A & B & C).
+  destruct (rinv_step _ _ _ Hr A) as [Hr1 Hp1].
+  destruct ok6; cbn [negb] in H.
+  2:{ destruct H as [E|[]]; inversion E; subst.
+      apply inv_update with (s := s); [exact Hinv|exact Hin|exact Hid|apply anyone_other; exact A| |apply ipoe_told_ok; exact Hp].
+      intros _. eapply sess_ok_pres with (P := anyone); [exact Hp1|exact I|exact Hs0]. }
+  apply in_flat_map in H. destruct H as ([[[r2 ad] pkd] okd] & Hcd & H).
+  destruct (acquire_ok FD _ _ _ _ _ _ _ _ _ _ Hr1 (fun Hn => not_fd_fd _ Hn) Hcd) as (A2 & B2 & _).
+  destruct (rinv_step _ _ _ Hr1 A2) as [Hr2 Hp2].
+  assert (A12 : step_ok anyone (st_reg st) r2) by (eapply step_ok_trans; eauto).
+  assert (Hcarry : forall f x, oo (st_reg st) (s_vrf s0) (s_id s0) f x -> oo r2 (s_vrf s0) (s_id s0) f x).
+  { intros f x Ho. apply oo_pres with (P := anyone) (r := r1); [exact Hp2|exact I|].
+    apply oo_pres with (P := anyone) (r := st_reg st); [exact Hp1|exact I|exact Ho]. }
+  assert (O6' : oo r2 (s_vrf s0) (s_id s0) F6 (oitem (oaddr a6))).
+  { apply oo_pres with (P := anyone) (r := r1); [exact Hp2|exact I|].
+    apply oo_oaddr; [apply C; discriminate|apply B; reflexivity]. }
+  destruct okd; cbn [negb] in H.
+  2:{ destruct H as [E|[]]; inversion E; subst.
+      apply inv_update with (s := s);
+        [exact Hinv|exact Hin|exact Hid|apply anyone_other; exact A12| |apply ipoe_told_ok; reflexivity].
+      intros _. apply ipoe_sess_ok; cbn; auto. }
+  assert (OD' : oo r2 (s_vrf s0) (s_id s0) FD ad) by (intros y Hy; apply B2; auto).
+  destruct a6 as [i6|]; [|destruct ad as [id'|]]; destruct H as [E|[]]; inversion E; subst;
+    (apply inv_update with (s := s);
+       [exact Hinv|exact Hin|exact Hid|apply anyone_other; exact A12| |apply ipoe_told_ok; reflexivity];
+     intros _; apply ipoe_sess_ok; cbn; auto using oo_none).
+Qed.
+
+(* ---------------------------------------------------------------- PPPoE: PA *)
+Lemma pa_addr_repaired (e : option item) j :
+  pa_addr Repaired e = Some j -> e = Some j /\ fst j <> 0.
+Proof.
+  unfold pa_addr. change (d1 Repaired) with false. cbn [negb andb].
+  destruct e as [i|]; [|discriminate]. destruct (fst i =? 0) eqn:E; [discriminate|].
+  intros H; inversion H; subst. split; auto. apply N.eqb_neq; exact E.
+Qed.
+
+Lemma pa_pd_ok spd vrf sid r2 r3 ad :
+  reg_ok r2 -> In (r3, ad) (pa_pd Repaired spd vrf sid r2) ->
+  step_ok anyone r2 r3 /\ (forall y, ad = Some y -> owns r3 FD vrf y sid).
+Proof.
+  intros Hok. unfold pa_pd. destruct spd as [x|].
+  - intros H. apply in_map_iff in H. destruct H as ([r' ok] & E & Hc). cbn in E. inversion E; subst; clear E.
+    destruct (reserve_cont_ok _ _ _ _ _ _ _ Hok Hc) as [A B]. split; [exact A|].
+    intros y Hy. destruct ok; cbn in Hy; [|discriminate]. inversion Hy; subst. apply B; reflexivity.
+  - intros [E|[]]. inversion E; subst. split; [apply step_ok_refl|intros; discriminate].
+Qed.
+
+Lemma okopt_some {A} ok (a : option A) j : okopt ok a = Some j -> ok = true /\ a = Some j.
+Proof. destruct ok; cbn; [auto|discriminate]. Qed.
+
+Lemma step_pa_inv st s vrf s4 s6 spd o4 o6 od st' o :
+  inv st -> In s (st_sess st) ->
+  In (st', o) (step_pa Repaired st s vrf s4 s6 spd o4 o6 od) -> inv st'.
+Proof.
+  intros Hinv Hin. pose proof Hinv as (Hr & _).
+  unfold step_pa, bindl. intros H.
+  apply in_flat_map in H. destruct H as ([[[r1 a4] p4] ok4] & Hc4 & H).
+  destruct (acquire_ok F4 _ _ _ _ _ _ _ _ _ _ Hr (fun _ i Hi => oitem_kind _ _ Hi) Hc4) as (A1 & B1 & C1).
+  destruct (rinv_step _ _ _ Hr A1) as [Hr1 Hp1].
+  apply in_flat_map in H. destruct H as ([[[r2 a6] p6] ok6] & Hc6 & H).
+  destruct (acquire_ok F6 _ _ _ _ _ _ _ _ _ _ Hr1 (fun _ i Hi => oitem_kind _ _ Hi) Hc6) as (A2 & B2 & C2).
+  destruct (rinv_step _ _ _ Hr1 A2) as [Hr2 Hp2].
+  apply in_map_iff in H. destruct H as ([r3 ad] & E & Hd). cbn [fst snd] in E. inversion E; subst; clear E.
+  destruct (pa_pd_ok _ _ _ _ _ _ (proj1 Hr2) Hd) as [A3 B3].
+  destruct (rinv_step _ _ _ Hr2 A3) as [Hr3 Hp3].
+  assert (A13 : step_ok anyone (st_reg st) r3).
+  { eapply step_ok_trans; [exact A1|]. eapply step_ok_trans; eauto. }
+  apply inv_update with (s := s); [exact Hinv|exact Hin|reflexivity|apply anyone_other; exact A13| |].
+  - intros _ _. cbn.
+    assert (O4 : oo r3 vrf (s_id s) F4 (oitem (oaddr (pa_addr Repaired (okopt ok4 a4))))).
+    { apply oo_oaddr.
+      - intros j Hj. apply pa_addr_repaired in Hj. destruct Hj as [Hj _]. apply okopt_some in Hj.
+        destruct Hj as [_ Hj]. apply C1; [discriminate|exact Hj].
+      - intros j Hj. apply pa_addr_repaired in Hj. destruct Hj as [Hj _]. apply okopt_some in Hj.
+        destruct Hj as [Hok Hj]. apply Hp3; [exact I|]. apply Hp2; [exact I|]. apply B1; auto. }
+    split; [intros _; split; [exact O4|split]|split; [exact O4|split; apply oo_none]].
+    + apply oo_oaddr.
+      * intros j Hj. apply okopt_some in Hj. destruct Hj as [_ Hj]. apply C2; [discriminate|exact Hj].
+      * intros j Hj. apply okopt_some in Hj. destruct Hj as [Hok Hj]. apply Hp3; [exact I|]. apply B2; auto.
+    + intros y Hy. apply B3; exact Hy.
+  - intros _. cbn. split; [|right; reflexivity].
+    destruct (pa_addr Repaired (okopt ok4 a4)) as [j|] eqn:Ej; cbn; [|discriminate].
+    apply pa_addr_repaired in Ej. destruct Ej as [_ Hn]. intros H. inversion H. contradiction.
+Qed.
+
+(* ---------------------------------------------------------------- every step, every history *)
+Lemma step_inv st o st' ot : inv st -> In (st', ot) (step Repaired st o) -> inv st'.
+Proof.
+  intros Hinv. unfold step, skip.
+  destruct o as [sid vrf s4 s6 spd o4 o6 od|sid a|sid|isreq sid vrf s4 o4|sid vrf s6 spd o6 od|sid|sid|sid];
+    destruct (find_sess sid st) as [s|] eqn:Ef;
+    try (intros [E|[]]; inversion E; subst; exact Hinv);
+    destruct (find_sess_in _ _ _ Ef) as [Hin Hid].
+  - destruct (s_ppp s && s_live s && negb (s_started s)); [apply step_pa_inv; auto|].
+    intros [E|[]]; inversion E; subst; exact Hinv.
+  - destruct (s_ppp s) eqn:Ep; cbn [andb]; [|intros [E|[]]; inversion E; subst; exact Hinv].
+    destruct (s_live s && s_started s && negb (s_ipcp s)); [apply step_pi_inv; auto|].
+    intros [E|[]]; inversion E; subst; exact Hinv.
+  - destruct (s_ppp s); [apply step_pt_inv; auto|intros [E|[]]; inversion E; subst; exact Hinv].
+  - destruct (s_ppp s) eqn:Ep; cbn [negb andb]; [intros [E|[]]; inversion E; subst; exact Hinv|].
+    destruct (s_live s) eqn:El; [|intros [E|[]]; inversion E; subst; exact Hinv].
+    unfold step_id. apply step_id_core_inv with (s := s); auto. apply id_ctx_of; auto.
+  - destruct (s_ppp s) eqn:Ep; cbn [negb andb]; [intros [E|[]]; inversion E; subst; exact Hinv|].
+    destruct (s_live s) eqn:El; [|intros [E|[]]; inversion E; subst; exact Hinv].
+    unfold step_is. apply step_is_core_inv with (s := s); auto. apply is_ctx_of; auto.
+  - destruct (negb (s_ppp s) && s_live s); [apply step_rel_inv; auto|intros [E|[]]; inversion E; subst; exact Hinv].
+  - destruct (negb (s_ppp s) && s_live s); [apply step_rel_inv; auto|intros [E|[]]; inversion E; subst; exact Hinv].
+  - destruct (negb (s_ppp s)); intros [E|[]]; inversion E; subst; exact Hinv.
+Qed.
+
+Lemma reach_inv st0 st : inv st0 -> reach Repaired st0 st -> inv st.
+Proof. intros H0 Hr. induction Hr; [exact H0|]. eapply step_inv; eauto. Qed.
+
+
+Lemma reach_rinv st0 st : inv st0 -> reach Repaired st0 st -> rinv (st_reg st).
+Proof. intros H0 Hr. apply (reach_inv _ _ H0 Hr). Qed.
+
+End Invariant.
+
+(* ---------------------------------------------------------------- the property theorems *)
+Definition fresh_sess (s : sess) : Prop :=
+  s_a4 s = None /\ s_a6 s = None /\ s_ad s = None /\ s_told s = None /\ s_b6 s = None /\ s_bd s = None.
+
+Lemma fresh_new id ppp p4 p6 mac : fresh_sess (new_sess id ppp p4 p6 mac).
+Proof. repeat split. Qed.
+
+Lemma init_inv (K : reg -> Prop) ps ss :
+  NoDup (map pool_id ps) -> Forall pool_wf ps -> K (mkReg ps []) ->
+  NoDup (map s_id ss) -> Forall fresh_sess ss -> inv K (init_state ps ss).
+Proof.
+  intros Hnd Hwf HK Hns Hfr. unfold inv, init_state; cbn [st_reg st_sess].
+  split; [split; [split; assumption|exact HK]|split; [exact Hns|split]].
+  - apply Forall_forall. intros s Hs. eapply Forall_forall in Hfr; eauto.
+    destruct Hfr as (A & B & C & D & E & F). intros _.
+    rewrite A, B, C, D, E, F. cbn. repeat split; try (intros _; repeat split); apply oo_none.
+  - apply Forall_forall. intros s Hs. eapply Forall_forall in Hfr; eauto.
+    destruct Hfr as (A & _ & _ & D & _). intros _. rewrite A, D. split; [discriminate|left; reflexivity].
+Qed.
+
+Lemma holds_owned (K : reg -> Prop) st s f x :
+  inv K st -> In s (st_sess st) -> holds s f = Some x -> owns (st_reg st) f (s_vrf s) x (s_id s).
+Proof.
+  intros Hinv Hin Hh. destruct (inv_sess K _ _ Hinv Hin) as [Hs _]. unfold holds in Hh.
+  destruct (s_live s) eqn:El; [|discriminate]. destruct (Hs El) as (A & B & C & D).
+  destruct (s_ppp s) eqn:Ep.
+  - destruct (A eq_refl) as (A1 & A2 & A3). destruct f; [apply A1|apply A2|apply A3]; exact Hh.
+  - destruct f; [apply B|apply C|apply D]; exact Hh.
+Qed.
+
+Definition Kd (r : reg) : Prop := kinds_ok r /\ pools_disjoint r.
+Lemma Kd_shape r r' : same_shape r r' -> Kd r -> Kd r'.
+Proof. intros Hs [A B]. split; [eapply kinds_ok_shape|eapply pools_disjoint_shape]; eauto. Qed.
+
+Lemma nodup_map_inj {A B} (g : A -> B) (l : list A) a b :
+  NoDup (map g l) -> In a l -> In b l -> g a = g b -> a = b.
+Proof.
+  induction l as [|c r IH]; simpl; [tauto|].
+  intros Hn Ha Hb He. inversion Hn as [|? ? Hc Hr]; subst.
+  destruct Ha as [->|Ha], Hb as [->|Hb]; auto.
+  - exfalso. apply Hc. rewrite He. apply in_map; exact Hb.
+  - exfalso. apply Hc. rewrite <- He. apply in_map; exact Ha.
+Qed.
+
+Lemma told_is_recorded_all ps ss st :
+  NoDup (map pool_id ps) -> Forall pool_wf ps -> kinds_ok (mkReg ps []) ->
+  NoDup (map s_id ss) -> Forall fresh_sess ss ->
+  reach Repaired (init_state ps ss) st ->
+  forall s, In s (st_sess st) ->
+    (forall f x, holds s f = Some x -> owns (st_reg st) f (s_vrf s) x (s_id s)) /\
+    (s_ppp s = true ->
+       (s_a4 s = None \/ s_a4 s = s_told s) /\
+       (s_live s = true -> forall t, s_told s = Some t -> owns (st_reg st) F4 (s_vrf s) (t, 0) (s_id s))).
+Proof.
+  intros Hnd Hwf Hk Hns Hfr Hreach s Hin.
+  assert (Hinv : inv kinds_ok st).
+  { eapply (reach_inv kinds_ok kinds_ok_shape (fun r H => H)); [|exact Hreach]. apply init_inv; auto. }
+  split.
+  - intros f x. apply (holds_owned kinds_ok); auto.
+  - intros Hp. destruct (inv_sess kinds_ok _ _ Hinv Hin) as [Hs Ht]. split; [apply Ht; exact Hp|].
+    intros Hl t Htold. destruct (Hs Hl) as (_ & B & _). apply B. rewrite Htold. reflexivity.
+Qed.
+
+Lemma unique_all ps ss st :
+  NoDup (map pool_id ps) -> Forall pool_wf ps -> kinds_ok (mkReg ps []) -> pools_disjoint (mkReg ps []) ->
+  NoDup (map s_id ss) -> Forall fresh_sess ss ->
+  reach Repaired (init_state ps ss) st ->
+  forall s1 s2 f x, In s1 (st_sess st) -> In s2 (st_sess st) -> s_vrf s1 = s_vrf s2 ->
+    holds s1 f = Some x -> holds s2 f = Some x -> s1 = s2.
+Proof.
+  intros Hnd Hwf Hk Hd Hns Hfr Hreach s1 s2 f x H1 H2 Hv Hh1 Hh2.
+  assert (Hinv : inv Kd st).
+  { eapply (reach_inv Kd Kd_shape (fun r H => proj1 H)); [|exact Hreach]. apply init_inv; auto. split; auto. }
+  pose proof Hinv as ((Hok & _ & Hdis) & Hids & _).
+  pose proof (holds_owned Kd _ _ _ _ Hinv H1 Hh1) as O1.
+  pose proof (holds_owned Kd _ _ _ _ Hinv H2 Hh2) as O2.
+  rewrite Hv in O1. pose proof (owns_functional _ _ _ _ _ _ Hok Hdis O1 O2) as Hid.
+  eapply nodup_map_inj; eauto.
+Qed.
+
+Lemma run_first_reach v st0 ops : forall st, reach v st0 st -> reach v st0 (run_first v st ops).
+Proof.
+  induction ops as [|o r IH]; simpl; intros st Hr; auto.
+  destruct (step v st o) as [|[st' ot] cs] eqn:E; auto.
+  apply IH. eapply reach_step; [exact Hr|]. rewrite E. left; reflexivity.
+Qed.
